@@ -8,6 +8,7 @@ import (
 	"bufio"
 	"fmt"
 	"go/ast"
+	"go/parser"
 	"go/token"
 	"os"
 	"path/filepath"
@@ -147,40 +148,50 @@ func genScripts() (string, error) {
 		}
 		var ss []slot
 		found := false
-		if fd := s.funcDecl("createControl"); fd != nil {
+		// the literal is looked for in every function of the package (whatever the variable and the function are called):
+		// a map literal whose values are {fileName: <selector>, mode: <octal>} records
+		for _, fd := range pkgFuncs(s) {
 			ast.Inspect(fd, func(n ast.Node) bool {
-				as, ok := n.(*ast.AssignStmt)
-				if !ok || len(as.Lhs) != 1 || len(as.Rhs) != 1 {
+				cl, ok := n.(*ast.CompositeLit)
+				if !ok || found {
 					return true
 				}
-				id, ok := as.Lhs[0].(*ast.Ident)
-				if !ok || id.Name != "specialFiles" {
+				if _, isMap := cl.Type.(*ast.MapType); !isMap {
 					return true
 				}
-				cl, ok := as.Rhs[0].(*ast.CompositeLit)
-				if !ok {
-					return true
-				}
-				found = true
+				var cand []slot
 				for _, el := range cl.Elts {
-					kv := el.(*ast.KeyValueExpr)
-					k, _ := unquote(kv.Key)
+					kv, ok := el.(*ast.KeyValueExpr)
+					if !ok {
+						return true
+					}
+					k, okk := unquote(kv.Key)
+					inner, oki := kv.Value.(*ast.CompositeLit)
+					if !okk || !oki {
+						return true
+					}
 					sl := slot{slot: k}
-					if inner, ok := kv.Value.(*ast.CompositeLit); ok {
-						for _, f := range inner.Elts {
-							fkv, ok := f.(*ast.KeyValueExpr)
-							if !ok {
-								continue
-							}
-							switch fullSel(fkv.Key) {
-							case "fileName":
-								sl.sel = selString(fkv.Value)
-							case "mode":
-								sl.mode = octLit(fkv.Value)
-							}
+					hasName := false
+					for _, f := range inner.Elts {
+						fkv, ok := f.(*ast.KeyValueExpr)
+						if !ok {
+							continue
+						}
+						switch fullSel(fkv.Key) {
+						case "fileName":
+							sl.sel = selString(fkv.Value)
+							hasName = true
+						case "mode":
+							sl.mode = octLit(fkv.Value)
 						}
 					}
-					ss = append(ss, sl)
+					if !hasName {
+						return true
+					}
+					cand = append(cand, sl)
+				}
+				if len(cand) > 0 {
+					ss, found = cand, true
 				}
 				return true
 			})
@@ -723,4 +734,28 @@ func tabulateRelevance(consts map[string]string) (string, string, error) {
 	rules := fmt.Sprintf("def relevanceRules : List (Bytes × List Bytes) := [(%s, %s), (%s, %s)]\n", leanStr("!=rpm"), leanStrList(only("rpm")), leanStr("!=deb"), leanStrList(only("deb")))
 	table := "/-- files.PrepareForPackager on one entry at /relx/entry: (packager, type, packager tag, in | out | error) -/\ndef relevanceTable : List (Bytes × Bytes × Bytes × Bytes) := [\n" + strings.Join(rows, ",\n") + "\n]\n"
 	return rules, table, nil
+}
+
+// pkgFuncs lists the function declarations of the file and of the other non-test files of its package directory.
+func pkgFuncs(s *srcFile) []*ast.FuncDecl {
+	var out []*ast.FuncDecl
+	add := func(f *ast.File) {
+		for _, d := range f.Decls {
+			if fd, ok := d.(*ast.FuncDecl); ok && fd.Body != nil {
+				out = append(out, fd)
+			}
+		}
+	}
+	add(s.f)
+	sibs, _ := filepath.Glob(filepath.Join(filepath.Dir(s.path), "*.go"))
+	sort.Strings(sibs)
+	for _, p := range sibs {
+		if p == s.path || strings.HasSuffix(p, "_test.go") {
+			continue
+		}
+		if f, err := parser.ParseFile(s.fset, p, nil, parser.ParseComments); err == nil {
+			add(f)
+		}
+	}
+	return out
 }
